@@ -7,6 +7,10 @@ import json, os, re, shutil, subprocess, sys, time
 HERE = os.path.dirname(os.path.dirname(os.path.abspath(__file__)))
 src, sid, prop = sys.argv[1], sys.argv[2], sys.argv[3]
 skip_tests = "--skip-tests" in sys.argv
+demo_cmake = ""
+for a_ in sys.argv:
+    if a_.startswith("--demo-cmake="):
+        demo_cmake = a_.split("=", 1)[1]   # extra cmake flags for the build the demonstration needs (e.g. -DFP_PRIME=255)
 wt = "/tmp/vs-" + sid
 log = open("/tmp/vs-%s.log" % sid, "w")
 
@@ -42,6 +46,8 @@ try:
         return rc
 
     def run_demo():
+        if demo_cmake:
+            sh("cmake -G Ninja -S %s -B %s/_b -DSEED= %s > /dev/null && cmake --build %s/_b -j 8" % (wt, wt, demo_cmake, wt))
         shutil.rmtree(demo_dir, ignore_errors=True)
         os.makedirs(demo_dir)
         for f in os.listdir(src):
@@ -77,5 +83,7 @@ os.makedirs(d, exist_ok=True)
 for f in os.listdir(src):
     if f in ("patch.diff", "README.txt") or f.startswith("demo"):
         shutil.copy(os.path.join(src, f), d)
+if demo_cmake:
+    res["demo_build_flags"] = demo_cmake
 json.dump(res, open(os.path.join(d, "verify.json"), "w"), indent=1)
 print(sid, "confirmed" if res["confirmed"] else "NOT CONFIRMED", json.dumps({k: v for k, v in res.items() if k not in ("demo_with_change_tail",)}))
